@@ -145,6 +145,8 @@ LangOf(d, n, L) ==
 (***************************************************************************)
 (* Evaluation                                                              *)
 (***************************************************************************)
+\* open known-finding switches travelling with the environment (absent = none: the ideal semantics)
+Fx(env) == IF "fx" \in DOMAIN env THEN env.fx ELSE {}
 FindVar(env, sp, lo) == {i \in 1..Len(env.vars) : env.vars[i].sp = sp /\ env.vars[i].lo = lo}
 FindFunc(env, sp, lo) == {i \in 1..Len(env.funcs) : env.funcs[i].sp = sp /\ env.funcs[i].lo = lo}
 \* a bound value: inside an environment a node-set value carries its ids as a SEQUENCE
@@ -268,7 +270,9 @@ CallBuiltin(d, env, name, args, ctx) ==
          ELSE LET ids == Asc(A(1).v) IN NumOrErr(SumNums([i \in 1..Len(ids) |-> StrToNum(StringValue(d, ids[i]))]))
     [] name = <<"f","l","o","o","r">> -> IF n # 1 THEN Bad ELSE NumOrErr(Floor(ToNum(d, A(1))))
     [] name = <<"c","e","i","l","i","n","g">> -> IF n # 1 THEN Bad ELSE NumOrErr(Ceil(ToNum(d, A(1))))
-    [] name = <<"r","o","u","n","d">> -> IF n # 1 THEN Bad ELSE NumOrErr(Round(ToNum(d, A(1))))
+    [] name = <<"r","o","u","n","d">> ->
+         IF n # 1 THEN Bad
+         ELSE NumOrErr(IF "round-neg-tie-down" \in Fx(env) THEN RoundNegTieDown(ToNum(d, A(1))) ELSE Round(ToNum(d, A(1))))
 
 \* user functions registered through WithFunction*: the harness registers a real Go function of
 \* the same kind; each is a deterministic function of its arguments and of the Context it is given
@@ -338,6 +342,20 @@ UsesReverseAxis(e) ==
     [] e.op = "filter" -> UsesReverseAxis(e.prim) \/ StepsReverse(e.steps) \/ \E j \in 1..Len(e.preds) : UsesReverseAxis(e.preds[j])
     [] e.op = "neg" -> UsesReverseAxis(e.a)
     [] OTHER -> UsesReverseAxis(e.l) \/ UsesReverseAxis(e.r)
+
+\* does the expression call the function named nm (anywhere)?
+RECURSIVE CallsFn(_, _)
+StepsCall(steps, nm) == \E i \in 1..Len(steps) :
+   IF "fn" \in DOMAIN steps[i] THEN CallsFn(steps[i].fn, nm) ELSE \E j \in 1..Len(steps[i].preds) : CallsFn(steps[i].preds[j], nm)
+CallsFn(e, nm) ==
+  CASE e.op \in {"num", "lit", "var"} -> FALSE
+    [] e.op = "call" -> (e.pre = "" /\ e.lo = nm) \/ \E i \in 1..Len(e.args) : CallsFn(e.args[i], nm)
+    [] e.op = "path" -> StepsCall(e.steps, nm)
+    [] e.op = "filter" -> CallsFn(e.prim, nm) \/ StepsCall(e.steps, nm) \/ \E j \in 1..Len(e.preds) : CallsFn(e.preds[j], nm)
+    [] e.op = "neg" -> CallsFn(e.a, nm)
+    [] OTHER -> CallsFn(e.l, nm) \/ CallsFn(e.r, nm)
+\* can an open switch change the value of e?
+Affected(e, fx) == ("round-neg-tie-down" \in fx /\ CallsFn(e, <<"r","o","u","n","d">>))
 
 IsAsc(seq) == \A i \in 1..(Len(seq) - 1) : seq[i] < seq[i + 1]
 IsDsc(seq) == \A i \in 1..(Len(seq) - 1) : seq[i] > seq[i + 1]
